@@ -247,9 +247,9 @@ def oracle(req, impl):
         return None if impl == "wk consts 0 -1 -2 -3 0 1 36" else "navigation / result constants changed: " + impl
     sp = split_impl(impl)
     if sp is None:
-        if impl.startswith("wk build=") or impl == "bad-op":
-            return "executor could not build the CIF: " + impl
-        return None
+        if impl.startswith("wk ") or impl == "bad-op":
+            return "unreadable observation / executor could not build the CIF: " + impl[:80]
+        return None             # crash / timeout lines are judged by check.py
     rc, n, logt, _ = sp
     toks, prog = split_req(req)
     try:
